@@ -5132,6 +5132,10 @@ class DfaCompileCtx:
             if len(transition.target.transitions) != 1 or DFTransition.Else not in transition.target.transitions[0].on_values:
                 continue
 
+            # An accept state is not a dummy: reaching it finishes the parser
+            if transition.target in self.dfa.accepting_states:
+                continue
+
             to_replace = transition.target.transitions[0]
 
             if not to_replace.is_fallthrough:
